@@ -180,6 +180,21 @@ IG_Q = make_integer_grid((-2, -1, 0, 1, 2, 3), (3,))
 IG_T = make_integer_grid((-4, -3, -2, -1, 0, 1, 2, 3, 4), (1, 2, 3, 4))
 
 
+def near_equal_case(ctx, idx, rng):
+    """Parameters that agree with each other (up to sign and a factor 1, 2 or 1/2 -- the factors the constructors themselves apply) to 6..12 digits
+    without being equal: c (1 + eps), eps in {+-1e-12 .. +-3e-6}. Anything that compares coefficients with a tolerance merges what must stay distinct."""
+    name, d = INT_MODELS[idx % len(INT_MODELS)]
+    dd = d if d else {'ising': 2, 'xxz': 2, 'xxz1': 3, 'fermi': 4}[name]
+    lmax = 1
+    while dd ** (lmax + 1) <= 256 and lmax < 7:
+        lmax += 1
+    L = int(rng.integers(2, lmax + 1))
+    c = float(rng.uniform(0.3, 2.0)) * float(rng.choice([1, 1, 1e-6, 1e5]))
+    p = tuple(float(rng.choice([-1, 1])) * c * float(rng.choice([1, 1, 2, 0.5])) * (1 + float(rng.choice([0, 1e-12, -1e-9, 1e-7, 1e-6, -3e-6, 3e-6, 8e-6]))) for _ in range(3))
+    ctx.case((name, f'L{min(L, 4)}', 'near-equal-parameters'), sample={'model': name, 'L': L, 'params': p, 'd': d}, info={'model': name, 'L': L, 'params': p, 'd': d})
+    check_model(ctx, name, L, p, d)
+
+
 def random_case(ctx, idx, rng):
     name = str(rng.choice(['ising', 'xxz', 'xxz1', 'bose', 'fermi']))
     d = int(rng.integers(1, 5)) if name == 'bose' else None
@@ -313,6 +328,7 @@ SPEC = {
         Workload('grid', grid_case, quick=8 * 8 * 64, thorough=8 * 8 * 64 * 12),
         Workload('integer-grid', IG_Q, quick=IG_Q.count, thorough=0, exhaustive={'space': 'all parameter triples in {-2..3}^3, every model, L=3'}),
         Workload('integer-grid-all', IG_T, quick=0, thorough=IG_T.count, exhaustive={'space': 'all parameter triples in {-4..4}^3, every model, L=1..4'}),
+        Workload('near-equal-parameters', near_equal_case, quick=400, thorough=40000),
         Workload('random', random_case, quick=150, thorough=40000),
         Workload('large', large_case, quick=120, thorough=6000),
         Workload('linear-fermionic', linear_fermionic_case, quick=200, thorough=32000),
